@@ -3,6 +3,7 @@
 import Driver.Common
 import GivaroModel.Model.RecInt
 import GivaroModel.Model.RecIntSigned
+import GivaroModel.Model.RecIntWords
 import GivaroModel.Spec.RecIntSpec
 import GivaroModel.Spec.RecIntMixedSpec
 -- @driver-mode recint Driver.RecInt.recintLine
@@ -89,6 +90,21 @@ def recintConvModel (op : String) (n : Nat) (a : List Int) : Option (List Int) :
   | "cvu_back", [z] => some (List.replicate 4 (ruint_to_mpz (ofNat n z.toNat)))
   | "cvs_from", [z] => some (List.replicate 7 (toS (val (mpz_to_rint n z))))
   | "cvs_back", [z] => some (List.replicate 4 (rint_to_mpz (ofNat n (z % (Bn n : Int)).toNat)))
+  -- built-in words and doubles (the C casts `(int32_t)w`, … made by the harness are `wrapS32`, `% 2^32`, …)
+  | "cvu_word", [w] =>
+      some [vi (u_of_signed n w), vi (ofLimb n (w % 18446744073709551616).toNat), vi (u_of_signed n (Givaro.wrapS32 w)),
+            vi (ofLimb n (w % 4294967296).toNat), vi (u_of_signed n w)]
+  | "cvs_word", [w] =>
+      some [toS (val (u_of_signed n w)), toS (val (ofLimb n (w % 18446744073709551616).toNat)), toS (val (u_of_signed n (Givaro.wrapS32 w))),
+            toS (val (ofLimb n (w % 4294967296).toNat)), toS (val (u_of_signed n w))]
+  | "cvu_toword", [z] => let a := ofNat n z.toNat
+      some [(to_u64 a : Int), to_s64 a, (to_u32 a : Int), to_s32 a, bi (to_bool a)]
+  | "cvs_toword", [z] => let a := ofNat n (z % (Bn n : Int)).toNat
+      some [to_s64 a, (to_u64 a : Int), to_s32 a]
+  | "cvu_dbl", [d] => some [vi (u_of_double n d), (u_to_double (ofNat n d.natAbs) : Int)]
+  | "cvs_dbl", [d] => some [toS (val (u_of_double n d)), s_to_double (ofNat n (d % (Bn n : Int)).toNat)]
+  | "cvu_todbl", [z] => some [(u_to_double (ofNat n z.toNat) : Int)]
+  | "cvs_todbl", [z] => some [s_to_double (ofNat n (z % (Bn n : Int)).toNat)]
   | _, _ => none
 
 /-- the `rint<K>` wrappers: the arguments are signed values, the model works on their two's-complement images -/
